@@ -126,6 +126,7 @@ def _c14_configs(tier):
         for t in cuts:
             out.append((f"future|Maize|method={method}|cut_day={t}", dict(kind="future", crop="Maize", method=method, t=t)))
     out.append(("future|Wheat-tunis|method=0|cut_day=30", dict(kind="future", crop="Wheat", method=0, t=30)))
+    out.append(("future|Maize|start-40d-before-planting|cut_day=60", dict(kind="future", crop="Maize", method=0, t=60, lead=40)))
     for crop in (("Maize", "WheatGDD") if tier == "quick" else ("Maize", "WheatGDD", "Potato", "BarleyGDD")):
         out.append((f"outside-window|{crop}", dict(kind="outside", crop=crop, method=0)))
     out.append(("outside-window|Maize|file-row-labels", dict(kind="outside", crop="Maize", method=0, keep_index=True)))
@@ -155,6 +156,8 @@ def h_lookahead(ctx, cfg):
         wf, start, end, plant = "tunis_climate.txt", "1979/10/01", "1980/06/30", "10/01"
     else:
         wf, start, end, plant = "champion_climate.txt", "1982/05/01", "1982/10/30", "05/01"
+        if cfg.get("lead"):
+            start = (pd.Timestamp(start) - pd.Timedelta(days=cfg["lead"])).strftime("%Y/%m/%d")
     w = weather(wf)
     s_ts, e_ts = pd.Timestamp(start), pd.Timestamp(end)
     span = pd.date_range(s_ts, e_ts)
